@@ -145,12 +145,12 @@ def grep_forbidden():
     return hits
 
 
-def run_driver(requests, timeout=3000):
+def run_driver(requests, main='Driver/Main.lean', timeout=3000):
     """Send request dicts to the Lean model driver; returns list of reply dicts."""
     if not requests:
         return []
     inp = '\n'.join(json.dumps(r, separators=(',', ':')) for r in requests) + '\n'
-    p = subprocess.run(['lake', 'env', 'lean', '--run', 'Driver/Main.lean'], cwd=LEAN_DIR,
+    p = subprocess.run(['lake', 'env', 'lean', '--run', main], cwd=LEAN_DIR,
                        input=inp, capture_output=True, text=True, timeout=timeout)
     if p.returncode != 0:
         raise LeanError('driver failed: ' + p.stderr[-3000:] + p.stdout[-1000:])
@@ -163,10 +163,14 @@ def run_driver(requests, timeout=3000):
 # ---------------------------------------------------------------- findings
 
 def load_findings():
-    p = os.path.join(VERIF, 'known_findings.json')
-    if not os.path.exists(p):
-        return []
-    return json.load(open(p))['findings']
+    """known findings: one committed file per property under known_findings/ (read-only at run time)."""
+    d = os.path.join(VERIF, 'known_findings')
+    out = []
+    if os.path.isdir(d):
+        for fn in sorted(os.listdir(d)):
+            if fn.endswith('.json'):
+                out.extend(json.load(open(os.path.join(d, fn)))['findings'])
+    return out
 
 
 # ---------------------------------------------------------------- misc
